@@ -1,7 +1,124 @@
 import PprofVerif.Base.Tok
-/- Driver operations for C09. -/
+import PprofVerif.Model.Crash
+/- Driver operations for C09 (crash-freedom of the driver's decision logic). -/
 namespace Driver.C09
-open PV
+open PV PV.Crash
 
-def ops : List (String × (List String → String)) := []
+def valTok : Val → String
+  | .b true => "b1"
+  | .b false => "b0"
+  | .i n => "i" ++ toString n
+  | .f s => "f" ++ s.toTok
+  | .s s => "s" ++ s.toTok
+
+def filterNames : List Str :=
+  [S "focus", S "ignore", S "hide", S "show", S "show_from", S "tagfocus", S "tagignore", S "tagshow", S "taghide"]
+
+/-- `k=v` for every non-empty filter option, in the order of `reportOptions`. -/
+def activeFilters (c : Cfg) : List Str :=
+  filterNames.filterMap fun k => match c k with
+    | .s v => if v.isEmpty then none else some (k ++ [61] ++ v)
+    | _ => none
+
+def evTok : Ev → Wr
+  | .printErr => ["E"]
+  | .set n v => ["S", n.toTok, v.toTok]
+  | .options => ["O"]
+  | .help => ["H"]
+  | .quit => ["Q"]
+  | .report cmd cfg _ =>
+    ["R"] ++ Wr.list Wr.str cmd ++ [valTok (cfg (S "output")), valTok (cfg (S "nodecount")), valTok (cfg (S "sort"))]
+      ++ Wr.list Wr.str (activeFilters cfg)
+
+def envAscii : Env :=
+  { fields := fieldsAscii, trimSpace := trimSpaceAscii,
+    -- ParseFloat is external: the harness only sends float values from a pool whose verdict it passes
+    -- along as the marker byte '!' (0x21) prefix = "ParseFloat fails"; see `session` below.
+    parseFloatOk := fun _ => true,
+    gen := fun _ _ => .ok () }
+
+/-- run a script line by line, collecting one token group per line. -/
+def runLines (e : Env) : Sess → List Str → List (List Ev) → Outcome (Sess × List (List Ev))
+  | s, [], acc => .ok (s, acc.reverse)
+  | s, l :: ls, acc =>
+    match step e s l with
+    | .ok (s1, ev) => if ev.any isQuit then .ok (s1, (ev :: acc).reverse) else runLines e s1 ls (ev :: acc)
+    | .err m => .err m
+    | .panic site => .panic site
+
+def rdSession : Rd (List Str × Str × List Str × List Str) := do
+  let types ← Rd.list Rd.str
+  let dflt ← Rd.str
+  let badFloats ← Rd.list Rd.str
+  let lines ← Rd.list Rd.str
+  pure (types, dflt, badFloats, lines)
+
+def ops : List (String × (List String → String)) := [
+  -- tagfilter <value>  →  absent | range <kind> | regexp <key> <value> | err | panic <site>
+  ("tagfilter", fun ts =>
+    match Rd.run Rd.str ts with
+    | none => "bad-op"
+    | some v => match compileTagFilter scaleUnitTable v with
+      | .ok .absent => "absent"
+      | .ok (.range k) => "range " ++ k.name
+      | .ok (.regexp k v) => "regexp " ++ k.toTok ++ " " ++ v.toTok
+      | .err _ => "err"
+      | .panic s => "panic " ++ s),
+  -- the same for the model of the PINNED code (panics on ParseInt overflow)
+  ("tagfilter.pinned", fun ts =>
+    match Rd.run Rd.str ts with
+    | none => "bad-op"
+    | some v => match compileTagFilterPinned scaleUnitTable v with
+      | .ok .absent => "absent"
+      | .ok (.range k) => "range " ++ k.name
+      | .ok (.regexp k v) => "regexp " ++ k.toTok ++ " " ++ v.toTok
+      | .err _ => "err"
+      | .panic s => "panic " ++ s),
+  -- locate <guarded> <npaths> <file> <buildid>  →  ok <number of candidate names tried> | panic <site>
+  ("locate", fun ts =>
+    match Rd.run (do let g ← Rd.bool; let n ← Rd.nat; let f ← Rd.str; let b ← Rd.str; pure (g, n, f, b)) ts with
+    | none => "bad-op"
+    | some (g, n, f, b) =>
+      let e : PathEnv := { join := fun _ => [], base := id, dir := id, noVolume := id, glob := fun _ => [],
+                           opens := fun _ _ => false }
+      let rec count : Nat → Nat → Outcome Nat
+        | 0, acc => .ok acc
+        | k+1, acc => match candidateNames g e [] ⟨f, b⟩ with
+          | .ok names => count k (acc + names.length)
+          | .err m => .err m
+          | .panic s => .panic s
+      match count n 0 with
+      | .ok c => "ok " ++ toString c
+      | .err _ => "err"
+      | .panic s => "panic " ++ s),
+  -- cmdline <tokens>  →  err | panic <site> | ok <R-event tokens>
+  ("cmdline", fun ts =>
+    match Rd.run (Rd.list Rd.str) ts with
+    | none => "bad-op"
+    | some toks => match parseCommandLine toks defaultCfg with
+      | .ok (cmd, cfg) => "ok " ++ Wr.render (evTok (.report cmd cfg true))
+      | .err _ => "err"
+      | .panic s => "panic " ++ s),
+  -- session <sampleTypes> <defaultSampleType> <values ParseFloat rejects> <lines>
+  --   →  panic <site> | ok <nlines> (<nev> <ev>…)… <final option values in table order>
+  ("session", fun ts =>
+    match Rd.run rdSession ts with
+    | none => "bad-op"
+    | some (types, dflt, badFloats, lines) =>
+      let e := { envAscii with parseFloatOk := fun v => !badFloats.contains v }
+      -- interactive() starts with configure("compact_labels", "true")
+      let s0 : Sess := { cfg := defaultCfg.put (S "compact_labels") (.b true), prof := ⟨types, dflt⟩ }
+      match runLines e s0 lines [] with
+      | .ok (s, evs) =>
+        "ok " ++ Wr.render (Wr.list (fun ev => Wr.list evTok ev) evs ++ Crash.fields.map (fun f => valTok (s.cfg f.name)))
+      | .err _ => "err"
+      | .panic site => "panic " ++ site),
+  -- fields: the option table  →  <name> <kind>…
+  ("fields", fun _ =>
+    Wr.render (Wr.list (fun f : Field => [f.name.toTok, match f.kind with
+      | .bool => "bool" | .int => "int" | .float => "float" | .string => "string"
+      | .choice _ => "choice" | .other => "other"]) Crash.fields)),
+  ("commands", fun _ =>
+    Wr.render (Wr.list (fun c : Str × Bool => [c.1.toTok, if c.2 then "1" else "0"]) Crash.commands))
+]
 end Driver.C09
